@@ -140,3 +140,38 @@ def c06_raise_lmax(inp, obligation):
             if list(o.lmax) != want:
                 bad.append("raise_lmax(d=%d, value=%d) on lmax %r (dim_adaptive=%r): lmax afterwards %r, expected %r" % (d, value, lmax0, adaptive, list(o.lmax), want))
     return bool(bad), {"violations": bad[:6]}
+
+
+@handler("C06.refine_refused")
+def c06_refine_refused(inp, obligation):
+    """a container whose last interval consists of two adjacent floating-point numbers: its refine() refuses (assert start < mid < end); the container must be
+    exactly as before, and a later successful step must still leave a tiling of [a,b]"""
+    import numpy as np
+    from sparseSpACE.RefinementObject import RefinementObjectSingleDimension
+    from sparseSpACE.RefinementContainer import RefinementContainer
+    from sparseSpACE.Grid import GlobalTrapezoidalGrid
+    bad = []
+    for (a, b) in ((0.0, 1.0), (2.0 ** 30, 2.0 ** 30 + 1.0)):
+        grid = GlobalTrapezoidalGrid([a], [b])
+        lo = float(np.nextafter(b, a))
+        mid = (a + b) / 2
+        objs = [RefinementObjectSingleDimension(a, mid, 0, 1, [0, 1], grid, a, b), RefinementObjectSingleDimension(mid, lo, 0, 1, [1, 2], grid, a, b),
+                RefinementObjectSingleDimension(lo, b, 0, 1, [2, 0], grid, a, b)]
+        rc = RefinementContainer(objs, 1, None)
+        before = (list(rc.popArray), [(o.start, o.end, list(o.levels)) for o in rc.refinementObjects])
+        try:
+            rc.refine(2)
+            continue        # this platform could split the interval: nothing to judge
+        except AssertionError:
+            pass
+        after = (list(rc.popArray), [(o.start, o.end, list(o.levels)) for o in rc.refinementObjects])
+        if after != before:
+            bad.append("[%r,%r]: refused refine(2) of the interval [%r,%r] changed the container: popArray %r -> %r, %d -> %d objects"
+                       % (a, b, lo, b, before[0], after[0], len(before[1]), len(after[1])))
+            continue
+        rc.refine(0)
+        rc.apply_remove()
+        ivs = sorted((o.start, o.end) for o in rc.refinementObjects)
+        if ivs[0][0] != a or ivs[-1][1] != b or any(ivs[k][1] != ivs[k + 1][0] for k in range(len(ivs) - 1)):
+            bad.append("[%r,%r]: after a refused split and one successful step the intervals %r no longer tile the domain" % (a, b, ivs))
+    return bool(bad), {"violations": bad[:3]}
